@@ -3,3 +3,8 @@ chk("C13", "model_checking",
     "Part (a): every reachable state (inner store x touched set) of the real copy-on-write store over a 3-4 key alphabet and every base content is visited, every mutating operation is taken from every state and every read/iterator form is compared with a plain MemDB; this is complete for the alphabet, not depth-bounded. Parts (b),(c): chain-level isolation around speculative calls and exactness of Readonly(h) on generated chains.",
     "Trusts tm-db MemDB as the reference store; keys/values outside the alphabet assumed to behave alike (store only orders/compares keys).",
     "DESIGN.md 5/C13", "enum")
+chk("C02", "model_checking",
+    "explicit-state BFS over real block transitions with a proposer replica and an independent validating replica",
+    "Every reachable base state (driving alphabet, 3 genesis families, depth bound) x every singleton and ordered pair (thorough: triples) of a 70-template state-relative tx menu: the real ProposeBlock output is validated and inserted by a fresh replica with another node key through the real AddBlock; head hash, both roots and the shared database content must agree. Exhaustive within the stated alphabet and depth.",
+    "memoryIpfs CIDs instead of kubo; fixed keys; mempool/state map iteration pinned to canonical order by the maporder overlay (order variation is explored under C01).",
+    "DESIGN.md 5/C02", "chainmc")
